@@ -156,7 +156,7 @@ def stack(scale, deg, n):
 
 def figure_cases():
     out = []
-    inv3 = [("", 0), ("6", 1), ("64", 2)]
+    inv3 = [("", 0), ("6", 1), ("64", 2), ("5/3", 0), ("6/3", 1), ("6/4", 2)]                  # the full, slashed figures of the triads too
     inv4 = [("7", 0), ("65", 1), ("43", 2), ("2", 3), ("42", 3), ("6/5", 1), ("4/3", 2)]      # the long and the slashed spellings too
     maj_tri = ["I", "ii", "iii", "IV", "V", "vi", "viio"]
     for d, f in enumerate(maj_tri):
@@ -184,7 +184,7 @@ class Figures(Stream):
     name = "figures"
     checker = None
     pair = "property oracle on roman_parser.analyze_one_chord + Chord[...].chord_extension_pitches vs textbook pitch classes"
-    quick, thorough = 2000, 2000
+    quick, thorough = 2400, 2400
 
     def gen(self, rng, n):
         cases = figure_cases()
